@@ -55,10 +55,23 @@ static std::string run_reader(const std::string& kind, std::string data, int opt
   }
   if (kind == "pdb") {
     PdbReadOptions o;
-    o.max_line_length = (opt & 1) ? 80 : 0;
+    // the option takes any int: values around the size of the reader's line buffer (122 bytes) matter most
+    static const int lens[] = {80, 120, 121, 122, 72, 1, 123, 1000000};
+    o.max_line_length = (opt & 1) ? lens[data.size() % 8] : 0;
     o.split_chain_on_ter = (opt & 2) != 0;
     o.skip_remarks = (opt & 4) != 0;
-    return summarize(read_pdb_from_memory(data.data(), data.size(), "mem", o));
+    std::string res = summarize(read_pdb_from_memory(data.data(), data.size(), "mem", o));
+    if ((opt & 1) && data.size() < 100000) {
+      // the same text with its first line made longer than the line buffer, read with the limits around its size
+      std::string longer = data;
+      size_t e = longer.find('\n');
+      longer.insert(e == std::string::npos ? longer.size() : e, std::string(150, 'X'));
+      for (int ml : {119, 120, 121, 122, 123}) {
+        o.max_line_length = ml;
+        try { read_pdb_from_memory(longer.data(), longer.size(), "mem", o); } catch (std::exception&) {}
+      }
+    }
+    return res;
   }
   if (kind == "xds") {
     XdsAscii x;
@@ -149,7 +162,7 @@ static std::string handle(const std::string& cmd, const std::string& args) {
       for (auto& pr : cols) {
         const std::string& v0 = pr.second < 0 ? pr.first->pair[1]
                                 : (pr.first->loop.values.empty() ? std::string() : pr.first->loop.values[pr.second]);
-        bool isint = !v0.empty() && v0.find_first_not_of("+-0123456789") == std::string::npos;
+        bool isint = !v0.empty() && v0.find_first_not_of("+-0123456789,()") == std::string::npos;   // numbers, and lists / ranges of them
         flags += isint ? 'i' : 's';
       }
       return std::to_string(cols.size()) + " " + flags;
